@@ -79,7 +79,7 @@ impl Workload {
         let mut d: Vec<u8> = match rng.below(10) {
             0..=2 => vec![],
             3..=6 => {
-                let mut v = rng.pick(DATA_STEMS).to_vec();
+                let mut v = DATA_STEMS[rng.usize_below(DATA_STEMS.len())].to_vec();
                 let n = rng.usize_below(12);
                 v.extend(rng.bytes(n));
                 // a marker somewhere inside (partial data search)
@@ -186,8 +186,8 @@ impl Workload {
             let n_out = 1 + rng.usize_below(4);
             let mut specs: Vec<OutSpec> = vec![];
             for i in 0..n_out {
-                let lock = builder::lock_with_args(gi, rng.pick(LOCK_ARGS));
-                let type_ = if rng.chance(450, 1000) { Some(builder::lock_with_args(gi, rng.pick(TYPE_ARGS))) } else { None };
+                let lock = builder::lock_with_args(gi, LOCK_ARGS[rng.usize_below(LOCK_ARGS.len())]);
+                let type_ = if rng.chance(450, 1000) { Some(builder::lock_with_args(gi, TYPE_ARGS[rng.usize_below(TYPE_ARGS.len())])) } else { None };
                 let data = self.gen_data(rng, i == 0);
                 specs.push(OutSpec { capacity: 0, lock, type_, data });
             }
